@@ -1316,6 +1316,7 @@ int main (int argc, char **argv)
 {
   char *line;
   signal (SIGPIPE, SIG_IGN);
+  signal (SIGHUP, SIG_IGN);   /* bus/dir-watch-inotify.c asks for a config reload by SIGHUP; reloading is bus/main.c's job, out of scope here */
   if (argc > 1) snprintf (rundir, sizeof rundir, "%s", argv[1]);
   setvbuf (stdout, NULL, _IOFBF, 1 << 16);
   while ((line = read_line ()))
